@@ -60,6 +60,7 @@ def check_disc(rep: Report, cases, ctx, disc, rng, tag="", shapes=None):
     rep.feat("fat_version_%d" % disc.version_flag)
     if info.get("shared_files"):
         rep.feat("samples_sharing_a_data_file")
+    rep.feat("pointer_tables_" + info.get("table_layout", "compact"))
     for smp in disc.samples.values():
         rep.feat("loop_mode_%d" % smp.mode)
         rep.feat("freq_code_%d" % smp.freq)
@@ -122,6 +123,14 @@ def targeted_discs(rng):
                 {0: G.Patch("Q0", [0, 1]), 1: G.Patch("Q1", [2])},
                 {0: G.Partial("R0", [2, 1, None, None]), 1: G.Partial("R1", [0, 3, None, None]), 2: G.Partial("R2", [0, 2, 1, None])}, smp)
     out.append(("shared-data-file", d5))
+    # pointer tables with unused slots before and between the used ones (S158: a table is not a -1-terminated list)
+    smp6 = {i: G.Sample(f"H{i}", W(rng, 200 + 50 * i), mode=i % 7) for i in range(4)}
+    d6 = G.Disc([G.Volume("V", [0, 1])], {0: G.Performance("P0", [0, 1, 2]), 1: G.Performance("P1", [2])},
+                {0: G.Patch("Q0", [0]), 1: G.Patch("Q1", [1]), 2: G.Patch("Q2", [2])},
+                {0: G.Partial("R0", [0, None, None, None]), 1: G.Partial("R1", [None, 1, None, 2]), 2: G.Partial("R2", [None, None, 3, None])}, smp6, table_layout="holes")
+    out.append(("tables-with-holes", d6))
+    d7 = G.Disc(d6.volumes, d6.performances, d6.patches, d6.partials, smp6, table_layout="back")
+    out.append(("tables-filled-from-the-back", d7))
     return out
 
 
@@ -129,7 +138,7 @@ def run(ctx, rep: Report, deep: bool = False):
     rng = ctx.rng
     rep.rule = (
         "logical discs -> independent writer (gen_roland) -> real `export`/`ls` and the Lean model of the parser: volumes x performances x patches x partials x <=4 sample slots, shared and orphaned entries, "
-        "chain shape in {contiguous, reversed, random, head-not-lowest}, cluster_top 0-2, several samples in one data file (one FAT entry, different leading-cluster offsets), the 7 loop modes, the 6 frequency codes, FAT version flag 1/2, windows ending exactly on k*9216; "
+        "chain shape in {contiguous, reversed, random, head-not-lowest}, cluster_top 0-2, several samples in one data file (one FAT entry, different leading-cluster offsets), pointer tables filled compactly / with unused slots before and between the used ones / from the back, the 7 loop modes, the 6 frequency codes, FAT version flag 1/2, windows ending exactly on k*9216; "
         "oracle: file set and PCM computed from the logical model; distinct = distinct image; non-trivial = image with >= 1 sample"
     )
     cases = []
@@ -154,7 +163,7 @@ def run(ctx, rep: Report, deep: bool = False):
         rep.families["roland-e2e"] = {"cases": len(cases), "disagreements": bad}
         if cases:
             rep.sample({"family": "roland-e2e", "op": cases[0].op, "result": cases[0].impl[:300]})
-    rep.required_features = ["images", "targeted", "samples_sharing_a_data_file", "head_not_lowest_chains", "windows_ending_on_cluster_boundary", "fat_version_2", "loop_mode_5", "loop_mode_6", "cluster_top_nonzero"]
+    rep.required_features = ["images", "targeted", "samples_sharing_a_data_file", "pointer_tables_holes", "pointer_tables_back", "head_not_lowest_chains", "windows_ending_on_cluster_boundary", "fat_version_2", "loop_mode_5", "loop_mode_6", "cluster_top_nonzero"]
 
 
 def search(ctx, rep: Report):
